@@ -101,7 +101,12 @@ def check_one(chk, drv, cfg):
     # ---- constructor
     ctor = None
     if res.ok:
-        ctor = vals[0]['ctor']
+        ctors = [v['ctor'] for v in vals]
+        kinds = {('ok' if c == 'ok' else kind_of(c)) for c in ctors}
+        if len(kinds) > 1:
+            chk.fail('C03:constructor-rank-dependent', 'the constructor succeeds on some ranks and is refused on others: %s' % sorted(set(ctors))[:3], case)
+            return
+        ctor = ctors[0]
     if ctor is not None and ctor != 'ok':
         k = kind_of(ctor)
         if 'refused' not in ms or ms['refused'].split(':')[0] != k:
@@ -228,4 +233,33 @@ def run(chk):
         drv.close()
     chk.assumptions = ['MPI Allgather / Alltoall semantics as implemented by the simulated MPI (byte counts from the buffers, like (buf, MPI.DOUBLE))',
                        'accepted = the constructor returns; a later exception from transpose is a failure to move the data']
-    return chk.finish()
+
+    def search():
+        """wider seeded sample, biased to the configurations where acceptance decisions matter: equal extents, groups with equally
+        many process axes, shuffled group order, several layouts per group"""
+        import random
+        r = random.Random(chk.seed + 4242)
+        sub = common.Check(chk.pid, chk.tier, chk.seed)
+        d2 = common.LeanDriver('C03.lean')
+        try:
+            for it in range(400):
+                cfg = gen(r, it, True)
+                if it % 2 == 0:
+                    p = r.choice([2, 2, 3])
+                    nd = 3
+                    perms = lu.all_perms(nd)
+                    cfg['nprocs'] = [[p, p], r.choice([[p, p], [p, p], [p], [p, 1]])]
+                    cfg['groups'] = [{'a%d' % k: list(r.choice(perms)) for k in range(r.randint(1, 3))},
+                                     {'b%d' % k: list(r.choice(perms)) for k in range(r.randint(1, 4))}]
+                    names = [n for g in cfg['groups'] for n in g]
+                    cfg['ext'] = lu.rand_shape(r, nd, [p, p], hi=6)
+                    cfg['world'] = p * p
+                    cfg['start'] = r.choice(names)
+                    cfg['steps'] = [(r.choice(names), r.random() < 0.5) for _ in range(r.randint(2, 6))]
+                check_one(sub, d2, cfg)
+                if sub.failures:
+                    return sub.failures[0]
+        finally:
+            d2.close()
+        return None
+    return chk.finish(search)
